@@ -49,8 +49,11 @@ type modelQuery struct {
 	ob     *Oblig
 	solver string
 	pins   []string
+	prefs  []string // soft preferences steering the model towards replayable values; dropped if unsatisfiable
 	cache  map[string]string
 }
+
+func (mq *modelQuery) prefer(a string) { mq.prefs = append(mq.prefs, "(assert "+a+")") }
 
 // values evaluates SMT terms in a model of the refuted obligation (re-solving with the values obtained
 // so far pinned, so that successive queries talk about one model).
@@ -62,64 +65,81 @@ func (mq *modelQuery) values(terms []string) ([]string, error) {
 		}
 	}
 	if len(need) > 0 {
-		var sb strings.Builder
-		sb.WriteString("(set-option :produce-models true)\n")
 		body := mq.vc.standaloneBody(mq.ob, false)
 		body = strings.TrimSuffix(strings.TrimSpace(body), "(check-sat)")
-		script := mq.vc.withAxioms(sb.String()+mq.vc.header(), body)
-		var sb2 strings.Builder
-		sb2.WriteString(script)
-		for _, p := range mq.pins {
-			sb2.WriteString(p + "\n")
-		}
-		sb2.WriteString("(check-sat)\n")
-		for i := 0; i < len(need); i += 200 {
-			j := i + 200
-			if j > len(need) {
-				j = len(need)
-			}
-			sb2.WriteString("(get-value (" + strings.Join(need[i:j], " ") + "))\n")
-		}
-		f, err := os.CreateTemp("", "rvc-model-*.smt2")
-		if err != nil {
-			return nil, err
-		}
-		defer os.Remove(f.Name())
 		solver := mq.solver
-		text := sb2.String()
+		var base string
 		if strings.HasPrefix(solver, "z3-new (candidate") {
 			// the candidate model was found without the quantified background axioms
-			text = "(set-option :produce-models true)\n" + mq.vc.header() + body
-			for _, p := range mq.pins {
-				text += p + "\n"
-			}
-			text += "(check-sat)\n"
-			for i := 0; i < len(need); i += 200 {
-				j := i + 200
-				if j > len(need) {
-					j = len(need)
-				}
-				text += "(get-value (" + strings.Join(need[i:j], " ") + "))\n"
-			}
+			base = "(set-option :produce-models true)\n" + mq.vc.header() + body
 			solver = "z3-new"
+		} else {
+			base = mq.vc.withAxioms("(set-option :produce-models true)\n"+mq.vc.header(), body)
 		}
-		f.WriteString(forSolver(solver, text))
-		f.Close()
-		var argv []string
+		order := []string{solver}
 		for _, s := range solvers {
-			if s.name == solver {
-				argv = s.args(f.Name(), 30)
+			if s.name != solver {
+				order = append(order, s.name)
 			}
 		}
-		if argv == nil {
-			argv = []string{"z3-new", "-T:30", f.Name()}
+		var out string
+		ok := false
+		for _, withPrefs := range []bool{true, false} {
+			if withPrefs && len(mq.prefs) == 0 {
+				continue
+			}
+			for _, sv := range order {
+				var sb2 strings.Builder
+				sb2.WriteString(base)
+				for _, p := range mq.pins {
+					sb2.WriteString(p + "\n")
+				}
+				if withPrefs {
+					for _, p := range mq.prefs {
+						sb2.WriteString(p + "\n")
+					}
+				}
+				sb2.WriteString("(check-sat)\n")
+				for i := 0; i < len(need); i += 200 {
+					j := i + 200
+					if j > len(need) {
+						j = len(need)
+					}
+					sb2.WriteString("(get-value (" + strings.Join(need[i:j], " ") + "))\n")
+				}
+				f, err := os.CreateTemp("", "rvc-model-*.smt2")
+				if err != nil {
+					return nil, err
+				}
+				f.WriteString(forSolver(sv, sb2.String()))
+				f.Close()
+				var argv []string
+				for _, s := range solvers {
+					if s.name == sv {
+						argv = s.args(f.Name(), 20)
+					}
+				}
+				ctx, cancel := context.WithTimeout(context.Background(), 30*time.Second)
+				out, _ = runCmd(ctx, argv)
+				cancel()
+				os.Remove(f.Name())
+				if a := answers(out); len(a) > 0 && a[0] == "sat" {
+					ok = true
+					break
+				}
+				if a := answers(out); len(a) > 0 && a[0] == "unsat" {
+					break // these constraints exclude every model: do not ask the other solvers
+				}
+			}
+			if ok {
+				if !withPrefs {
+					mq.prefs = nil
+				}
+				break
+			}
 		}
-		ctx, cancel := context.WithTimeout(context.Background(), 40*time.Second)
-		out, _ := runCmd(ctx, argv)
-		cancel()
-		a := answers(out)
-		if len(a) == 0 || a[0] != "sat" {
-			return nil, fmt.Errorf("model query: solver answered %v", a)
+		if !ok {
+			return nil, fmt.Errorf("model query: no solver returned a model (%v)", answers(out))
 		}
 		vals := parseGetValues(out)
 		if len(vals) < len(need) {
@@ -364,6 +384,9 @@ func (r *replayer) build(term string, t types.Type, depth int) (string, bool) {
 // buildBytes builds a []byte with the model's length, capacity and (shared) backing array.
 func (r *replayer) buildBytes(term string, t types.Type) (string, bool) {
 	vc := r.vc
+	if !vc.bv {
+		r.mq.prefer(fmt.Sprintf("(and (<= (sl_off %s) 64) (<= (sl_cap %s) 4096))", term, term))
+	}
 	vs, err := r.mq.values([]string{fmt.Sprintf("(sl_ref %s)", term), fmt.Sprintf("(sl_off %s)", term), fmt.Sprintf("(sl_len %s)", term), fmt.Sprintf("(sl_cap %s)", term)})
 	if err != nil {
 		return "", r.fail("%v", err)
@@ -420,6 +443,8 @@ func (r *replayer) buildBytes(term string, t types.Type) (string, bool) {
 func (r *replayer) buildReader(id string, bufio bool) (string, bool) {
 	vc := r.vc
 	vc.rdposComp()
+	p0t := fmt.Sprintf("(select %s %s)", compInit("$rdpos"), id)
+	r.mq.prefer(fmt.Sprintf("(and (<= 0 %s) (<= %s 64) (<= %s (rd_len %s)) (<= (rd_len %s) (+ %s 70000)))", p0t, p0t, p0t, id, id, p0t))
 	vs, err := r.mq.values([]string{fmt.Sprintf("(rd_len %s)", id), fmt.Sprintf("(select %s %s)", compInit("$rdpos"), id)})
 	if err != nil {
 		return "", r.fail("%v", err)
@@ -430,7 +455,7 @@ func (r *replayer) buildReader(id string, bufio bool) (string, bool) {
 		return "", r.fail("reader model not usable (rd_len %s, position %s)", vs[0], vs[1])
 	}
 	n := new(big.Int).Sub(ln, p0)
-	if n.Cmp(big.NewInt(1<<16)) > 0 {
+	if n.Cmp(big.NewInt(1<<17)) > 0 {
 		return "", r.fail("reader model with %s remaining bytes is outside the replay range", n)
 	}
 	if p0.Cmp(big.NewInt(1<<16)) > 0 {
@@ -853,7 +878,6 @@ func (cc *clauseCompiler) call(e *ECall) (goExpr, error) {
 		if err != nil {
 			return x, err
 		}
-		cc.r.in.imports["io"] = true
 		return goExpr{fmt.Sprintf("rvIsIOErr(%s)", x.code), "bool", nil}, nil
 	case "dyntype":
 		x, err := arg(0)
@@ -1149,7 +1173,7 @@ func (r *replayer) run(payload map[string]interface{}) bool {
 	switch ob.Kind {
 	case "nil", "bounds", "slice", "divzero", "typeassert", "makeslice", "panic", "chan", "discard":
 		mode = "panic"
-	case "alloc":
+	case "alloc", "wrap", "convert", "overflow":
 		mode = "alloc"
 	case "variant":
 		mode = "timeout"
@@ -1184,7 +1208,7 @@ func (r *replayer) run(payload map[string]interface{}) bool {
 	}
 	// test source
 	var sb strings.Builder
-	fmt.Fprintf(&sb, "package %s\n\nimport (\n\t\"fmt\"\n\t\"testing\"\n\trvreflect \"reflect\"\n\trvio \"io\"\n", fn.Pkg.Pkg.Name())
+	fmt.Fprintf(&sb, "package %s\n\nimport (\n\t\"fmt\"\n\t\"testing\"\n\trvreflect \"reflect\"\n\trvio \"io\"\n\trvruntime \"runtime\"\n", fn.Pkg.Pkg.Name())
 	var imps []string
 	for p := range r.in.imports {
 		imps = append(imps, p)
@@ -1199,6 +1223,7 @@ func (r *replayer) run(payload map[string]interface{}) bool {
 	for _, d := range r.in.decl {
 		sb.WriteString("\t" + d + "\n")
 	}
+	sb.WriteString("\tvar rvM0, rvM1 rvruntime.MemStats\n\trvruntime.ReadMemStats(&rvM0)\n")
 	sb.WriteString("\tcalled := false\n\tdefer func() {\n\t\tif x := recover(); x != nil {\n\t\t\tif s, ok := x.(string); ok && s == \"RVC-REPLAY-RANGE\" { fmt.Println(\"RVC-REPLAY: RANGE\"); return }\n\t\t\tif called { fmt.Println(\"RVC-REPLAY: CLAUSE-PANIC\", x); return }\n\t\t\tfmt.Println(\"RVC-REPLAY: PANIC\", x)\n\t\t}\n\t}()\n")
 	if len(resNames) > 0 {
 		fmt.Fprintf(&sb, "\t%s := %s\n", strings.Join(resNames, ", "), call)
@@ -1209,6 +1234,7 @@ func (r *replayer) run(payload map[string]interface{}) bool {
 		fmt.Fprintf(&sb, "\t%s\n", call)
 	}
 	sb.WriteString("\tcalled = true\n\tfmt.Println(\"RVC-REPLAY: RETURNED\")\n")
+	sb.WriteString("\trvruntime.ReadMemStats(&rvM1)\n\tfmt.Println(\"RVC-REPLAY: ALLOC\", rvM1.TotalAlloc-rvM0.TotalAlloc)\n")
 	if mode == "clause" {
 		fmt.Fprintf(&sb, "\tfmt.Println(\"RVC-REPLAY: CLAUSE\", %s)\n", clauseCode)
 	}
@@ -1249,7 +1275,7 @@ func runReplay(repoDir, pkgPath, src, mode string) (string, string) {
 		timeout = "20s"
 	}
 	// address-space limit: a runaway allocation ends the test process instead of the machine
-	sh := fmt.Sprintf("ulimit -v 6000000; cd %s && go test -overlay %s -vet=off -count=1 -v -timeout %s -run '^TestRvcReplay$' ./%s", repoDir, ovFile, timeout, rel)
+	sh := fmt.Sprintf("ulimit -v 12000000; cd %s && go test -overlay %s -vet=off -count=1 -v -timeout %s -run '^TestRvcReplay$' ./%s", repoDir, ovFile, timeout, rel)
 	ctx, cancel := context.WithTimeout(context.Background(), 180*time.Second)
 	defer cancel()
 	cmd := exec.CommandContext(ctx, "bash", "-c", sh)
@@ -1278,8 +1304,15 @@ func runReplay(repoDir, pkgPath, src, mode string) (string, string) {
 		if has("out of memory") || has("cannot allocate memory") {
 			return "reproduced: the real function exhausts the address-space limit on the model's input", out
 		}
-		if has("RVC-REPLAY: RETURNED") || has("RVC-REPLAY: PANIC") {
-			return "not reproduced: the real function did not exhaust memory on the model's input", out
+		if m := regexp.MustCompile(`RVC-REPLAY: ALLOC (\d+)`).FindStringSubmatch(out); m != nil {
+			n, _ := new(big.Int).SetString(m[1], 10)
+			if n != nil && n.Cmp(big.NewInt(64<<20)) > 0 {
+				return fmt.Sprintf("reproduced: the real function allocates %s bytes on the model's input (input stream and arguments are below 1 MiB)", m[1]), out
+			}
+			return "not reproduced: the real function allocates " + m[1] + " bytes on the model's input", out
+		}
+		if has("RVC-REPLAY: PANIC") {
+			return "reproduced: the real function panics on the model's input", out
 		}
 	case "timeout":
 		if has("test timed out") || ctx.Err() != nil {
